@@ -3,6 +3,7 @@ replays, evidence, known findings.  Run with /venv/bin/python (stdlib + the repo
 from __future__ import annotations
 
 import hashlib
+import logging
 import json
 import os
 import random
@@ -24,6 +25,7 @@ DRIVER_BIN = LEAN_DIR / ".lake" / "build" / "bin" / "driver"
 # make sure the code under test is /repo's current working tree
 sys.path.insert(0, str(REPO / "src"))
 os.environ.setdefault("CFDP_PY_VERIF", "1")
+logging.disable(logging.CRITICAL)      # the library logs warnings/exceptions for every refused operation
 
 STD_AXIOMS = {"propext", "Classical.choice", "Quot.sound"}
 FORBIDDEN = [
